@@ -259,6 +259,14 @@ impl Property for C10 {
                 }
             }
         }
+        // impostors: queries carrying a contact's id from an address that is not the contact's
+        for _ in 0..rng.range(0, 4) {
+            let i = rng.below(n as u64) as usize;
+            tid_no += 1;
+            let tid = [b'I', (tid_no >> 8) as u8, tid_no as u8];
+            let from = addr(v6, 3, rng.range(1, 4) as u32, 6000);
+            sc.at(rng.range(1_000, end), Op::Raw { from, to: node, bytes: ping(&tid, &ids[i]) });
+        }
         // searches started by the script (more queries towards contacts)
         for _ in 0..rng.range(0, 3) {
             sc.at(rng.range(5_000, end), Op::Search { node: 0, ih: rng.id20(), announce: rng.chance(1, 2) });
@@ -367,7 +375,7 @@ impl Property for C10 {
         v
     }
     fn rule(&self) -> &'static str {
-        "one real node (serving or read-only) with 1..8 stub contacts over 20..180 virtual minutes; each contact answers always / never / until t / from t / in windows whose on and off times are biased to 15 min +- {1 ms, 1 s, 1 min}, names a drawn subset of the others, and may send the node queries at gaps biased to the 15-minute edge; optional searches; load_contacts sampled every 3.7..11.9 s and a find_node probe every 61 s. A reference model of the statement (last accepted answer, last query while known, consecutive unanswered queries while not good, re-admission by hearsay) is fed from the wire tap and compared with every sample. non-trivial = more than 10 samples with at least one definitely-good contact; distinct = distinct order digests"
+        "one real node (serving or read-only) with 1..8 stub contacts over 20..180 virtual minutes; each contact answers always / never / until t / from t / in windows whose on and off times are biased to 15 min +- {1 ms, 1 s, 1 min}, names a drawn subset of the others, and may send the node queries at gaps biased to the 15-minute edge; impostors send queries carrying a contact's id from another address; optional searches; load_contacts sampled every 3.7..11.9 s and a find_node probe every 61 s. A reference model of the statement (last accepted answer, last query while known, consecutive unanswered queries while not good, re-admission by hearsay) is fed from the wire tap and compared with every sample. non-trivial = more than 10 samples with at least one definitely-good contact; distinct = distinct order digests"
     }
     fn assumptions(&self) -> Vec<&'static str> {
         vec!["one-way latency <= 200 ms so that every answer falls inside the 0.5 s lifetime of the query it answers", "a contact touched by an event within 2 ms of a sample is not judged at that sample; predicates must hold at t-1, t and t+1 ms", "a bad contact named again by another node is re-admitted as questionable (DESIGN.md, C10 interpretation)"]
